@@ -83,3 +83,42 @@ contract(
     ],
     raises=[("Exception", "False", "only_if")],
 )
+
+# ---------------------------------------------------------------------------------------------
+# _construct_hole_edge_indices: exactly the edges with a single adjacent face (C03)
+# ---------------------------------------------------------------------------------------------
+contract(
+    "uxarray.grid.geometry._construct_hole_edge_indices", props=["C03"],
+    sizes=["n_edge"],
+    params={"edge_face_connectivity": "arr(int, n_edge, 2, space='edge', vspace='face')"},
+    returns="arr(int, n_holes)",
+    ensures=[
+        "forall(0, len(result), lambda t: 0 <= result[t] and result[t] < n_edge and edge_face_connectivity[result[t], 1] == FILL)",
+        "forall(0, n_edge, lambda e: implies(edge_face_connectivity[e, 1] == FILL, exists(0, len(result), lambda t: result[t] == e)))",
+        "forall(0, len(result), 0, len(result), lambda t, u: implies(t < u, result[t] < result[u]))",
+    ],
+    raises=[("Exception", "False", "only_if")],
+)
+
+# ---------------------------------------------------------------------------------------------
+# _pad_closed_face_nodes: row i = its corners followed by copies of the first corner (C15)
+# ---------------------------------------------------------------------------------------------
+_PADROW = "ite(j < n_nodes_per_face[i], face_node_connectivity[i, j], face_node_connectivity[i, 0])"
+contract(
+    "uxarray.grid.geometry._pad_closed_face_nodes", props=["C15"],
+    sizes=["n_face", "n_max_face_nodes"],
+    params={"face_node_connectivity": "arr(int, n_face, n_max_face_nodes, space='face', vspace='node')",
+            "n_face": "n_face", "n_max_face_nodes": "n_max_face_nodes",
+            "n_nodes_per_face": "arr(int, n_face, space='face')"},
+    requires=["forall(0, n_face, lambda i: 1 <= n_nodes_per_face[i] and n_nodes_per_face[i] <= n_max_face_nodes)"],
+    returns="arr(int, n_face, n_max_face_nodes + 1)",
+    ensures=["shape(result) == (n_face, n_max_face_nodes + 1)",
+             # from the property: each polygon's vertices are its face's corners in order (then closed with the first corner)
+             f"forall(0, n_face, 0, n_max_face_nodes + 1, lambda i, j: result[i, j] == {_PADROW})",
+             "owner_is(result, 'fresh')"],
+    loops={0: loop(counter="k", invariants=[
+        f"forall(0, k, 0, n_max_face_nodes + 1, lambda i, j: closed[i, j] == {_PADROW})",
+        "forall(k, n_face, 0, n_max_face_nodes, lambda i, j: closed[i, j] == face_node_connectivity[i, j])",
+    ])},
+    raises=[("Exception", "False", "only_if")],
+)
